@@ -25,7 +25,7 @@ def jobs(tier, seed):
     for n in (range(2, 7) if q else range(2, 9)):
         for solves in (1, 2):
             J.append(dict(entry='h_tridiag', args=[n, 1, solves, 0], label=f'cyclic n={n} solves={solves}', cls='cyclic', reach=['solved'],
-                          diff=(solves == 2 and n in (2, 3, 5)), eager=False, cap_thorough=900))
+                          diff=(solves == 2 and n in (2, 3, 5)), eager=False, cap_thorough=300))
     for n in (2, 3, 4, 5) if q else (2, 3, 4, 5, 6):
         for mode in (0, 1):
             J.append(dict(entry='h_pivots', args=[n, 0, mode], label=f'pivots plain n={n} mode={mode}', cls='pivots', reach=['premise-stated'],
